@@ -1,4 +1,6 @@
 import VaxisModel.Driver.C01
+import VaxisModel.Model.C12Compose
+import VaxisModel.Model.EmuIO
 
 /-! Driver for C12: a Vaxis application rendered into the embedded terminal emulator.
 Uses the C01 driver's state for `caps`/`size`/`dict`/`cell`/`showcursor`/`hidecursor` lines, plus:
@@ -12,8 +14,15 @@ Uses the C01 driver's state for `caps`/`size`/`dict`/`cell`/`showcursor`/`hidecu
   emudraw \t <host grid, cells inline in the same format>
       verdict: the cells Draw put into a host window of the same size mean the emulator grid
 
-There is no separate model line here (the composition renderer-model ∘ emulator-model is the
-subject of C01 and C06); model-canon and impl-canon are both the oracle's summary. -/
+  emuadopt \t <full emulator snapshot, format of Model/EmuIO.lean>
+      the model emulator continues from the implementation's state (after start-up and after a resize)
+  emustate \t <full emulator snapshot>
+      model-canon vs impl-canon: THE COMPOSITION OF THE MODELS — the renderer model's tokens for the
+      frame just rendered (`renderFrameC`), through the wire `Model.C12Compose.opsOfToks`, run by the
+      emulator model (`runOps`) from the previous state — against the real emulator's full state after
+      the real renderer's bytes went through the real parser (`=` when every snapshot token agrees).
+
+For emurender/emudraw/emucaps model-canon and impl-canon are both the oracle's summary. -/
 namespace VaxisModel.Driver.C12
 open VaxisModel.Driver VaxisModel.Model.Render VaxisModel.Spec VaxisModel.Spec.Display
 
@@ -21,7 +30,37 @@ structure St where
   base : C01.St := {}
   emu : List (List DCell) := []
   dead : Bool := false
+  /-- the emulator MODEL's state (composition stream) -/
+  emuM : Option VaxisModel.Model.Emu.Emu := none
+  /-- the emulator model panicked / has no state: later frames of the case are not compared -/
+  emuDead : Bool := false
   deriving Inhabited
+
+def C05diff (m i : String) : String × String :=
+  if m = i then ("=", "=") else
+  let mt := fields m
+  let it := fields i
+  if mt.length ≠ it.length then (m, i) else
+  let d := (mt.zip it).filter (fun p => p.1 ≠ p.2)
+  (" ".intercalate (d.map (·.1)), " ".intercalate (d.map (·.2)))
+
+def decHex (g : String) : List Nat := (hexBytes? g).getD []
+
+/-- One frame through the models: renderer model → wire → emulator model. Also advances the
+    renderer model's memory (`last`, cursor, pointer shape, refresh flag). -/
+def modelFrame (s : St) (next : Grid) (forceRefresh : Bool) : St :=
+  let b := s.base
+  let refresh := b.refresh || forceRefresh
+  let f : Frame := { caps := b.caps, refresh := refresh, next := next, last := b.last,
+                     cursorNext := b.cn, cursorLast := b.cl, shapeNext := b.shapeN, shapeLast := b.shapeL }
+  let (last', mtoks) := renderFrameC (C01.cwOf b.dict) f
+  let ops := VaxisModel.Model.C12Compose.opsOfToks decHex (C01.cwOf b.dict) mtoks
+  let (em, dead) := match s.emuM with
+    | some e => (match VaxisModel.Model.Emu.runOps e ops with
+                 | .ok e' => (some e', s.emuDead)
+                 | .error _ => (none, true))
+    | none => (none, s.emuDead)
+  { s with base := { b with last := last', refresh := false, cl := b.cn, shapeL := b.shapeN }, emuM := em, emuDead := dead }
 
 def fullCaps : Caps := { rgb := true, styledUnderlines := true, explicitWidth := false, sync := false }
 
@@ -78,9 +117,30 @@ def step (s : St) (line : String) : St × String :=
       match det.find? (fun n => !implemented.contains n) with
       | some n => (s, s!"chk\tchk\tFAIL Vaxis understood the emulator's replies as '{n}', which the emulator does not implement")
       | none => (s, "chk\tchk\tok")
-  | ["emurender", enc] =>
+  | ["emuadopt"] =>
+      match VaxisModel.Model.EmuIO.parseSnap? impl with
+      | some sn => ({ s with emuM := some sn.e, emuDead := false }, "-\t-\t-")
+      | none => (s, "-\tunparsed\tFAIL unparsed emulator snapshot")
+  | ["emustate"] =>
+      match VaxisModel.Model.EmuIO.parseSnap? impl with
+      | none => (s, "-\tunparsed\tFAIL unparsed emulator snapshot")
+      | some sn =>
+        let istr := VaxisModel.Model.EmuIO.renderSnap sn.e
+        let out := match s.emuM with
+          | some e =>
+            let (a, b) := C05diff (VaxisModel.Model.EmuIO.renderSnap { e with hasVx := false }) istr
+            s!"{a}\t{b}\t-"
+          | none => if s.emuDead then s!"model-panic\t{istr}\t-" else "-\t-\t-"
+        -- continue from the implementation's state (identical to the model's when they agree)
+        ({ s with emuM := some sn.e, emuDead := false }, out)
+  | [op, enc] =>
+      if op ≠ "emurender" ∧ op ≠ "emurefresh" then
+        let (b', out) := C01.step s.base line
+        ({ s with base := b' }, out)
+      else
       match C01.parseGrid s.base enc, impl.splitOn "|" with
       | some next, [hd, rows] =>
+        let s := modelFrame s next (op == "emurefresh")
         match hd.splitOn ";" |>.map String.toInt?, parseRows rows with
         | [some cr, some cc, some cs, some vis], some g =>
           let emu := emuMeaning g
